@@ -857,11 +857,35 @@ export class Component<
 
     // init template with init data
     if (propEarlyInit && initPropValues !== undefined) initPropValues(comp)
-    // (a child may write to this component's data while the template is being created,
-    // e.g. through a model binding: the nodes created before that need an update afterwards)
-    let changesWhileCreating: DataChange[] | undefined = []
-    dataGroup.setUpdateListener((_data, combinedChanges) => {
-      changesWhileCreating!.push(...combinedChanges)
+    // (a child may write to this component's data while the template is being created or
+    // updated, e.g. through a model binding: such changes are applied once that is done)
+    let rendering = true
+    let changesWhileRendering: DataChange[] = []
+    const applyChanges = (data: { [name: string]: DataValue }, changes: DataChange[]) => {
+      rendering = true
+      try {
+        tmplInst.updateValues(data, changes)
+        while (changesWhileRendering.length > 0) {
+          const pending = changesWhileRendering
+          changesWhileRendering = []
+          tmplInst.updateValues(dataGroup.innerData || dataGroup.data, pending)
+        }
+      } finally {
+        rendering = false
+      }
+    }
+    dataGroup.setUpdateListener((data, combinedChanges) => {
+      if (rendering) {
+        changesWhileRendering.push(...combinedChanges)
+        return
+      }
+      if (ENV.DEV) {
+        performanceMeasureRenderWaterfall('component.render', 'backend.render', comp, () => {
+          applyChanges(data, combinedChanges)
+        })
+      } else {
+        applyChanges(data, combinedChanges)
+      }
     })
     if (ENV.DEV) {
       performanceMeasureRenderWaterfall('component.render', 'backend.render', comp, () => {
@@ -871,19 +895,12 @@ export class Component<
       tmplInst.initValues(dataGroup.innerData || dataGroup.data)
     }
     comp._$tmplInst = tmplInst
-    if (changesWhileCreating.length > 0) {
-      tmplInst.updateValues(dataGroup.innerData || dataGroup.data, changesWhileCreating)
+    rendering = false
+    if (changesWhileRendering.length > 0) {
+      const pending = changesWhileRendering
+      changesWhileRendering = []
+      applyChanges(dataGroup.innerData || dataGroup.data, pending)
     }
-    changesWhileCreating = undefined
-    dataGroup.setUpdateListener((data, combinedChanges) => {
-      if (ENV.DEV) {
-        performanceMeasureRenderWaterfall('component.render', 'backend.render', comp, () => {
-          tmplInst.updateValues(data, combinedChanges)
-        })
-      } else {
-        tmplInst.updateValues(data, combinedChanges)
-      }
-    })
 
     // bind behavior listeners
     const listeners = behavior._$listeners
